@@ -326,7 +326,7 @@ def api_applicable(case):
     return True
 
 
-def fill_api(case, info, rng):
+def fill_api(case, info, rng, style="api"):
     """The same abstract message, produced by USING the declared type through the public API."""
     k = case["k"]
     lg = MemoryLogger()
@@ -354,18 +354,45 @@ def fill_api(case, info, rng):
         done_companion = False
     if k == "message":
         kw.update(extra)
-        how = rng.randrange(3)
-        if how == 0:
-            info["type"](**kw).write(lg)
-        elif how == 1:
+        MSG = info["type"]
+        inside = bool(rng.randrange(2))     # also inside the context of an (untyped) action of the same logger
+        if style == "log":
             prev = swap_logger(lg)
             try:
-                info["type"].log(**kw)
+                if inside:
+                    with eliot.start_action(action_type="c14:outer"):
+                        MSG.log(**kw)
+                else:
+                    MSG.log(**kw)
             finally:
                 swap_logger(prev)
+        elif style == "write":
+            prev = swap_logger(lg)
+            try:
+                MSG(**kw).write()
+            finally:
+                swap_logger(prev)
+        elif style in ("write_logger", "api"):
+            if inside:
+                with eliot.start_action(lg, "c14:outer"):
+                    MSG(**kw).write(lg)
+            else:
+                MSG(**kw).write(lg)
+        elif style == "write_action":
+            a = eliot.start_action(lg, "c14:outer")
+            MSG(**kw).write(action=a)
+            a.finish()
+        elif style == "bind_write_action":
+            names = sorted(kw, key=repr)
+            rng.shuffle(names)
+            cut = rng.randrange(len(names) + 1)
+            a = eliot.start_action(lg, "c14:outer")
+            m = MSG(**dict((n, kw[n]) for n in names[:cut]))
+            m = m.bind(**dict((n, kw[n]) for n in names[cut:]))
+            m.write(action=a)
+            a.finish()
         else:
-            with eliot.start_action(lg, "c14:outer"):
-                info["type"](**kw).write(lg)
+            raise ValueError(style)
     elif k == "untyped":
         prev = swap_logger(lg)
         try:
@@ -444,17 +471,23 @@ def run_cases(job, out):
             c, d2 = observe(lambda: check_for_errors(lg2))
             results.append([idx, w, "raw", v, c, note or d1 or d2])
             if api_applicable(case):
+                styles = sorted(case.get("styles") or ["api"])
+                if not (job.get("all_styles", True) and w == 0):    # every style for the first witness, one (rotating) for the others
+                    styles = [styles[(idx + w) % len(styles)]]
                 st = rng.getstate()
-                try:
-                    lg1 = fill_api(case, info, rng)
-                    rng.setstate(st)
-                    lg2 = fill_api(case, info, rng)
-                except BaseException as e:
-                    results.append([idx, w, "api", "USE-RAISED:" + type(e).__name__, "", str(e)[:200]])
-                    continue
-                v, d1 = observe(lg1.validate)
-                c, d2 = observe(lambda: check_for_errors(lg2))
-                results.append([idx, w, "api", v, c, d1 or d2])
+                for style in styles:
+                    via = "api" if style == "api" else "api:" + style
+                    try:
+                        rng.setstate(st)
+                        lg1 = fill_api(case, info, rng, style)
+                        rng.setstate(st)
+                        lg2 = fill_api(case, info, rng, style)
+                    except BaseException as e:
+                        results.append([idx, w, via, "USE-RAISED:" + type(e).__name__, "", str(e)[:200]])
+                        continue
+                    v, d1 = observe(lg1.validate)
+                    c, d2 = observe(lambda: check_for_errors(lg2))
+                    results.append([idx, w, via, v, c, d1 or d2])
     out["cases"] = results
     out["skipped"] = skipped
 
@@ -572,6 +605,7 @@ class CapHooks(object):
         self.sink = []
         self.pre = MemoryLogger() if init == "other" else None
         self.loggers = {}     # test number -> the MemoryLogger given to the test
+        self.foreign = {}     # test number -> the logger the body swapped in itself
         self.obs = {}
         self.n = 0
 
@@ -587,6 +621,9 @@ class CapHooks(object):
         for n, lg in self.loggers.items():
             if any(m.get("marker") == marker for m in lg.messages):
                 found.append(n)
+        for n, lg in self.foreign.items():
+            if any(m.get("marker") == marker for m in lg.messages):
+                found.append(100 + n)
         return found[0] if len(found) == 1 else "?%r" % (found,)
 
     def before(self, name):
@@ -642,6 +679,13 @@ def make_test(n, desc, hooks, variant):
             if logs == "tb_flushed":
                 logger.flushTracebacks(ZeroDivisionError)
         out = desc["out"]
+        if desc.get("swap"):
+            # the body (or a helper it calls) installs another logger itself and only swaps back when it passes
+            hooks.foreign[n] = MemoryLogger()
+            mine = swap_logger(hooks.foreign[n])
+            log_message("c14:foreign", n=n)
+            if out == "pass":
+                swap_logger(mine)
         if out == "fail":
             self.fail("body fails") if variant % 2 == 0 else self.assertEqual(1, 2)
         if out == "error":
